@@ -64,6 +64,9 @@ func init() {
 		"strings.TrimPrefix": stubTrimPrefix,
 		"strings.TrimSuffix": stubTrimSuffix,
 		"strings.ReplaceAll": stubReplaceAll,
+		"strings.TrimRight":  func(p *path, _ *frame, a []value) value { return p.trimCutset(a[0].(Str), a[1].(Str), false, true) },
+		"strings.TrimLeft":   func(p *path, _ *frame, a []value) value { return p.trimCutset(a[0].(Str), a[1].(Str), true, false) },
+		"strings.Trim":       func(p *path, _ *frame, a []value) value { return p.trimCutset(a[0].(Str), a[1].(Str), true, true) },
 		"strings.Repeat":     stubRepeat,
 		"strings.Fields":     stubFields,
 		"strings.EqualFold":  stubEqualFold,
@@ -415,6 +418,49 @@ func stubTrimSpace(p *path, _ *frame, a []value) value {
 	}
 	for hi > lo && p.branch(p.isSpaceByte(s.b[hi-1])) {
 		hi--
+	}
+	return Str{s.b[lo:hi]}
+}
+
+// trimCutset: strings.Trim/TrimLeft/TrimRight with a concrete ASCII cutset.
+func (p *path) trimCutset(s, cut Str, left, right bool) Str {
+	if !cut.IsConcrete() {
+		p.unsupported("strings.Trim* with a symbolic cutset")
+	}
+	cs := cut.Concrete()
+	for i := 0; i < len(cs); i++ {
+		if cs[i] >= 0x80 {
+			p.unsupported("strings.Trim* with a non-ASCII cutset")
+		}
+	}
+	if s.IsConcrete() {
+		switch {
+		case left && right:
+			return p.mkStr(strings.Trim(s.Concrete(), cs))
+		case left:
+			return p.mkStr(strings.TrimLeft(s.Concrete(), cs))
+		default:
+			return p.mkStr(strings.TrimRight(s.Concrete(), cs))
+		}
+	}
+	p.asciiOnly(s, "strings.Trim*")
+	in := func(b *Term) *Term {
+		r := p.tc.ff
+		for i := 0; i < len(cs); i++ {
+			r = p.tc.Or(r, p.tc.Eq(b, p.byteConst(cs[i])))
+		}
+		return r
+	}
+	lo, hi := 0, len(s.b)
+	if left {
+		for lo < hi && p.branch(in(s.b[lo])) {
+			lo++
+		}
+	}
+	if right {
+		for hi > lo && p.branch(in(s.b[hi-1])) {
+			hi--
+		}
 	}
 	return Str{s.b[lo:hi]}
 }
